@@ -62,13 +62,13 @@ func checkC19(c *Ctx) {
 	r.Assumptions = guardsAssumptions
 }
 
-func isNilConstV(v ssa.Value) bool {
+func isNilConstValue(v ssa.Value) bool {
 	k, ok := v.(*ssa.Const)
 	return ok && k.Value == nil
 }
 
-// appendedElems: the element values of `append(base, e1, e2…)` (varargs array) — nil if not that shape.
-func appendedElems(call *ssa.Call) (base ssa.Value, elems []ssa.Value, ok bool) {
+// guardAppendedElems: the element values of `append(base, e1, e2…)` (varargs array) — nil if not that shape.
+func guardAppendedElems(call *ssa.Call) (base ssa.Value, elems []ssa.Value, ok bool) {
 	b, isB := call.Call.Value.(*ssa.Builtin)
 	if !isB || b.Name() != "append" || len(call.Call.Args) != 2 {
 		return nil, nil, false
@@ -119,12 +119,12 @@ func c19Prefix(c *Ctx, a *guards.FuncAn, enc *ssa.Function) {
 				if !ok {
 					continue
 				}
-				bs, els, ok := appendedElems(call)
+				bs, els, ok := guardAppendedElems(call)
 				if !ok || a.Canon(bs) != ssa.Value(phi) || len(els) != 1 {
 					continue
 				}
 				other := a.Canon(phi.Edges[1-i])
-				if !(isNilConstV(other) || guards.SameLin(a.LenOf(other), guards.Konst(0))) {
+				if !(isNilConstValue(other) || guards.SameLin(a.LenOf(other), guards.Konst(0))) {
 					continue
 				}
 				if sl, ok := a.Canon(els[0]).(*ssa.Slice); ok && a.Canon(sl.X) == ssa.Value(data) {
@@ -159,7 +159,7 @@ func c19Prefix(c *Ctx, a *guards.FuncAn, enc *ssa.Function) {
 	okWidth := guards.SameLin(width, a.Lin(fs))
 	blk := app.Block()
 	okPos := a.EntailsEq(blk, guards.Sub(a.LenOf(base), a.Lin(idx)))
-	got := fmt.Sprintf("appended element %s; width = %s; position: len(rows) - index == 0 entailed=%v", clipS(sl.String()), width.String(), okPos)
+	got := fmt.Sprintf("appended element %s; width = %s; position: len(rows) - index == 0 entailed=%v", guardClip(sl.String()), width.String(), okPos)
 	r.Check(okWidth && okPos, "R2.prefix", key+"/element", pos, "row i is data[i*fs:(i+1)*fs] and is appended at position i", got, true)
 	// (c) every successful return value extends that list by appends only
 	nret := 0
@@ -168,11 +168,11 @@ func c19Prefix(c *Ctx, a *guards.FuncAn, enc *ssa.Function) {
 		if !ok || !a.ReachableBlock(b) {
 			continue
 		}
-		if !isNilConstV(a.Canon(ret.Results[1])) {
+		if !isNilConstValue(a.Canon(ret.Results[1])) {
 			continue
 		}
 		nret++
-		ok2, why := extendsFrom(a, ret.Results[0], base, map[ssa.Value]bool{})
+		ok2, why := c19ExtendsFrom(a, ret.Results[0], base, map[ssa.Value]bool{})
 		r.Check(ok2, "R2.prefix", key+"/return", P.Rel(ret.Pos()), "returned rows extend the data rows by append only", why, true)
 	}
 	if nret == 0 {
@@ -223,8 +223,8 @@ func c19Prefix(c *Ctx, a *guards.FuncAn, enc *ssa.Function) {
 	r.Check(okWrites, "R2.prefix", key+"/no-rewrite", P.Rel(enc.Pos()), "rows are never written after being appended", fmt.Sprintf("%s%d element stores, all into fresh make() slices", why, nst), true)
 }
 
-// extendsFrom: v is base, an append onto something that extends base, or a phi of such values.
-func extendsFrom(a *guards.FuncAn, v ssa.Value, base *ssa.Phi, seen map[ssa.Value]bool) (bool, string) {
+// c19ExtendsFrom: v is base, an append onto something that extends base, or a phi of such values.
+func c19ExtendsFrom(a *guards.FuncAn, v ssa.Value, base *ssa.Phi, seen map[ssa.Value]bool) (bool, string) {
 	v = a.Canon(v)
 	if v == ssa.Value(base) {
 		return true, "reaches the data-row list"
@@ -236,17 +236,17 @@ func extendsFrom(a *guards.FuncAn, v ssa.Value, base *ssa.Phi, seen map[ssa.Valu
 	switch x := v.(type) {
 	case *ssa.Phi:
 		for _, e := range x.Edges {
-			if ok, why := extendsFrom(a, e, base, seen); !ok {
+			if ok, why := c19ExtendsFrom(a, e, base, seen); !ok {
 				return false, why
 			}
 		}
 		return true, "phi of append chains over the data-row list"
 	case *ssa.Call:
-		if bs, _, ok := appendedElems(x); ok {
-			return extendsFrom(a, bs, base, seen)
+		if bs, _, ok := guardAppendedElems(x); ok {
+			return c19ExtendsFrom(a, bs, base, seen)
 		}
 		if b, isB := x.Call.Value.(*ssa.Builtin); isB && b.Name() == "append" {
-			return extendsFrom(a, x.Call.Args[0], base, seen)
+			return c19ExtendsFrom(a, x.Call.Args[0], base, seen)
 		}
 	}
 	return false, fmt.Sprintf("value %s (%T) is not an append chain over the data-row list", v.Name(), v)
@@ -274,7 +274,7 @@ func c19Count(c *Ctx, a *guards.FuncAn, enc *ssa.Function) {
 	n := 0
 	for _, b := range enc.Blocks {
 		ret, ok := b.Instrs[len(b.Instrs)-1].(*ssa.Return)
-		if !ok || !a.ReachableBlock(b) || !isNilConstV(a.Canon(ret.Results[1])) {
+		if !ok || !a.ReachableBlock(b) || !isNilConstValue(a.Canon(ret.Results[1])) {
 			continue
 		}
 		n++
@@ -348,7 +348,7 @@ func c19Rows(c *Ctx, E *guards.Engine, ml *ssa.Function) {
 			if a.Entails(b, guards.Sub(ln, idx).Plus(-2)) {
 				bad = append(bad, "index <= len-2 is provable: the last row can never be selected")
 			}
-			k := key + " " + strings.TrimSpace(clipS(exprText(ml, ia.Pos())))
+			k := key + " " + strings.TrimSpace(guardClip(guardExprText(ml, ia.Pos())))
 			if len(bad) > 0 {
 				r.Bad("R4.rows", k, P.Rel(st.Pos()), "the selected row ranges over 0..m-1", strings.Join(bad, "; "))
 			} else {
@@ -361,11 +361,11 @@ func c19Rows(c *Ctx, E *guards.Engine, ml *ssa.Function) {
 	}
 }
 
-func clipS(s string) string {
+func guardClip(s string) string {
 	if len(s) > 80 {
 		return s[:77] + "..."
 	}
 	return s
 }
 
-func exprText(f *ssa.Function, pos token.Pos) string { return guards.ExprAt(f, pos) }
+func guardExprText(f *ssa.Function, pos token.Pos) string { return guards.ExprAt(f, pos) }
